@@ -48,7 +48,7 @@ class Prop(BaseProp):
             res.see("mode", "small-tree-enumeration")
             res.count("enumerated_small_tree_runs")
         else:
-            tree = gen_tree(rng, max_depth=rng.choice([1, 2, 3, 4]), case_twins=rng.random() < 0.3, index_module=rng.random() < 0.1)
+            tree = gen_tree(rng, max_depth=rng.choice([1, 2, 3, 4]), case_twins=rng.random() < 0.3, index_module=rng.random() < 0.1, symlinks=rng.random() < 0.3)
             recursive = rng.random() < 0.7
             auto = rng.random() < 0.6
         prefix = rng.choice([None, None, "Pfx", "my.pkg"])
